@@ -332,7 +332,7 @@ def run_c25(ctx, replay):
         r2 = vlib.tlc(ctx, "IPCQuery", Q_CONST % 5 + "INIT Init\nNEXT Next\nINVARIANT C25Q\n", workers=1)
         if r2.violated != "C25Q":
             raise vlib.Inconclusive("closed-channel finding not reachable in the model")
-        ns, ds, nq, dq = (1500, 40, 700, 36) if ctx.thorough() else (220, 30, 130, 30)
+        ns, ds, nq, dq = (1500, 40, 640, 36) if ctx.thorough() else (160, 30, 96, 30)
         _, ss = vlib.simulate_schedules(ctx, "Gen_IPCStreams", ST_CONST % ("1, 2, 3", ds) + "INIT GenInit\nNEXT GenNext\n", ns, ds)
         for s in ss:
             if s[-1]["a"] != "close":
